@@ -88,7 +88,10 @@ class ComponentID(object):
             # nothing changes, so there is nothing to announce
             return
         self._label = value
-        if self.parent is not None and self.parent.hub:
+        # The parent is only told if this is (still) one of its components -
+        # not after the component was removed or re-assigned to another ID
+        if (self.parent is not None and self.parent.hub and
+                any(cid is self for cid in self.parent.components)):
             msg = DataRenameComponentMessage(self.parent, self)
             self.parent.hub.broadcast(msg)
 
